@@ -30,8 +30,9 @@ def _linear(t, atoms):
     return None
 
 
-def last_level_predicate(t, idx, count, flag):
-    """Does boolean term t normalise to `idx == count - 1 and flag`?  Returns (ok, reason)."""
+def last_level_predicate(t, idx, count, flag, start=0):
+    """Does boolean term t normalise to `idx == count - 1 + start and flag`?  (start: first value of the index, e.g.
+    enumerate(..., start=1)).  Returns (ok, reason)."""
     conj = list(t[2]) if t[0] == "boolop" and t[1] == "and" else [t]
     has_flag = any(c == flag for c in conj)
     eqs = [c for c in conj if c[0] == "cmp" and c[1] == ("==",)]
@@ -51,7 +52,8 @@ def last_level_predicate(t, idx, count, flag):
         diff[k] = diff.get(k, 0) - v
     diff = {k: v for k, v in diff.items() if v != 0}
     # idx - count + 1 == 0  (or its negation)
-    want = {idx: 1, count: -1, "1": 1}
+    want = {idx: 1, count: -1, "1": 1 - start}
+    want = {k: v for k, v in want.items() if v != 0}
     neg = {k: -v for k, v in want.items()}
     if diff == want or diff == neg:
         return True, ""
@@ -79,14 +81,23 @@ def sib_atomistic_level(repo, tier="quick"):
         if es and es[0] == "elem" and strip_wrappers(es[1]) == strings and aa is not None:
             # index term: enumerate index of the same loop
             idx = None
+            start = 0
             for x in walk_term(aa):
                 e = elem_of(x) if isinstance(x, tuple) and x and x[0] in ("sub",) else None
                 if e and e[0] == "index" and e[1] == strings:
                     idx = x
+                    # enumerate(strings, start=k) / enumerate(strings, k)
+                    en = x[1][2] if x[1][0] == "iter" else None
+                    ce = is_call(en, "enumerate") if en is not None else None
+                    if ce:
+                        sv = dict(ce[1]).get("start", ce[0][1] if len(ce[0]) > 1 else ("const", 0))
+                        start = sv[1] if sv[0] == "const" and isinstance(sv[1], int) else None
             count = ("call", None, ("builtin", "len"), (strings,), ())
             aa_n = strip_sites(aa)
-            if idx is not None:
-                ok, why = last_level_predicate(aa_n, strip_sites(idx), count, flagp)
+            if idx is not None and start is None:
+                why = "the level index starts at a value the rule cannot read"
+            elif idx is not None:
+                ok, why = last_level_predicate(aa_n, strip_sites(idx), count, flagp, start)
             else:
                 why = "the all_atom argument does not depend on the position of the fragment string"
         (obs.append(ob_ok(oid, fi, call, construct="read_fragments(s, all_atom=(idx == len(strings) - 1 and last_all_atom))", instance="reader",
@@ -165,6 +176,19 @@ def ord_resolve_handover(repo, tier="quick"):
             c = is_call(a[1], "networkx.get_node_attributes")
             if c and c[0][:2] == (("attr", SELF, "molecule"), ("const", "atomname")) and cfg.dominates(nid, inode):
                 ok3 = True
+    # ... or node by node:  for n in coarse.nodes: coarse.nodes[n]['fragname'] = coarse.nodes[n]['atomname']
+    for n in cfg.nodes:
+        if n.kind == "stmt" and isinstance(n.ast, ast.Assign) and isinstance(n.ast.targets[0], ast.Subscript):
+            tt = node_attr(fl.canon(n.ast.targets[0], n.id))
+            vv = node_attr(fl.canon(n.ast.value, n.id))
+            if tt and vv and tt[0] == vv[0] == ("attr", SELF, "molecule") and tt[1] == vv[1] and tt[2] == ("const", "fragname") and vv[2] == ("const", "atomname"):
+                ek = elem_of(tt[1])
+                lps = enclosing_loops(fi, n.id)
+                if ek and ek[0] == "elem" and strip_wrappers(ek[1]) in (("attr", tt[0], "nodes"), tt[0]) and lps and cfg.dominates(lps[-1].id, inode):
+                    # only a presence test on the source attribute may guard the copy
+                    gs = [g for g in guards_of(fi, n.id) if g[2] != lps[0].id]
+                    if all(pol and "atomname" in ast.unparse(t_) for t_, pol, _ in gs):
+                        ok3 = True
     (obs.append(ob_ok(oid, fi, construct="set_node_attributes(coarse, get_node_attributes(coarse, 'atomname'), 'fragname')", instance="names",
                       reason="the names the previous level gave its nodes select this level's fragments")) if ok3 else
      obs.append(ob_fail(oid, fi, construct="fragname := atomname on the coarse graph", instance="names",
